@@ -235,7 +235,7 @@ def jobs(tier):
     for hdr in ("Content-Length", "Transfer-Encoding", "Host"):
         for n in ((1, 2, 3) if quick else (1, 2, 3, 4)):
             out.append(dict(name=f"hv-{hdr}-{n}", func="header_value", params=dict(header=hdr, n=n), limits=lim))
-    for n in ((3, 4, 5) if quick else (3, 4, 5, 6, 7)):
+    for n in ((3, 4) if quick else (3, 4, 5, 6, 7)):
         out.append(dict(name=f"chunked-{n}", func="chunked_body", params=dict(n=n), limits=lim))
     for where in ("target", "method", "version"):
         for n in ((1, 2) if quick else (1, 2, 3)):
@@ -254,5 +254,5 @@ def bounds(tier):
     return {"templates": sorted(TEMPLATES), "window_bytes": [1] if tier == "quick" else [1, 2],
             "modes": "replace/insert (quick) + delete (thorough) at every offset",
             "symbolic_byte_domain": "0x00-0x7F u 0xF8-0xFF for windows (bytewise UTF-8 decoding), 0x00-0xFF for field-line-full-3 and chunked bodies",
-            "field_line_len": "1..4 (quick) 1..6 (thorough)", "chunked_body_len": "3..5 (quick) 3..7 (thorough)",
+            "field_line_len": "1..4 (quick) 1..6 (thorough)", "chunked_body_len": "3..4 (quick) 3..7 (thorough)",
             "limits": "max_line_size=max_field_size=8190, max_headers=128 (defaults); symbolic limits are C03/C10"}
